@@ -1123,3 +1123,299 @@ Example missing_dirs_ex :
      {| mut := true; ents := [mk_entry [47;97;47;98;47;99;47;100]%N 0 1; mk_entry [47;120]%N 0 2] |} 9)))
   = [[47;97]; [47;97;47;98]; [47;97;47;98;47;99]; [47;97;47;98;47;99;47;100]; [47;120]]%N.
 Proof. reflexivity. Qed.
+
+(* ================================================================== dirname *)
+Lemma dw_length f l : length (drop_while f l) <= length l.
+Proof. induction l as [|c r IH]; cbn; [lia|]. destruct (f c); cbn; lia. Qed.
+
+Lemma dirname_length t : length (dirname t) < length t \/ dirname t = t.
+Proof.
+  unfold dirname. destruct (rev t) as [|c r] eqn:E.
+  - right. apply (f_equal (@rev N)) in E. rewrite rev_involutive in E. subst. reflexivity.
+  - assert (L : length t = S (length r)) by (rewrite <- (rev_length t), E; reflexivity).
+    cbn [drop_while]. destruct (is_sl c) eqn:C; cbn [negb].
+    + destruct (forallb is_sl (c :: r)) eqn:F.
+      * right. rewrite <- E. apply rev_involutive.
+      * left. rewrite rev_length. cbn [drop_while]. rewrite C.
+        pose proof (dw_length is_sl r). lia.
+    + left. set (rh := drop_while (fun c0 => negb (is_sl c0)) r).
+      pose proof (dw_length (fun c0 => negb (is_sl c0)) r) as H1. fold rh in H1.
+      destruct (forallb is_sl rh); rewrite rev_length; [lia|].
+      pose proof (dw_length is_sl rh). lia.
+Qed.
+
+Lemma dirname_le t : length (dirname t) <= length t.
+Proof. destruct (dirname_length t) as [H|H]; [lia|rewrite H; lia]. Qed.
+
+Lemma dw_nonsl_app l Y : (forall x, In x l -> is_sl x = false) ->
+  drop_while (fun c => negb (is_sl c)) (l ++ Y) = drop_while (fun c => negb (is_sl c)) Y.
+Proof.
+  induction l as [|c l IH]; intros H; cbn [app]; [reflexivity|]. cbn [drop_while].
+  rewrite (H c (or_introl eq_refl)). cbn [negb]. apply IH. intros x Hx. apply H. right. exact Hx.
+Qed.
+
+Lemma nosl_in c x : nosl c -> In x (rev c) -> is_sl x = false.
+Proof.
+  unfold nosl. rewrite forallb_forall. intros H Hx. apply in_rev in Hx. specialize (H _ Hx).
+  apply negb_true_iff in H. exact H.
+Qed.
+
+Lemma forallb_sl_repeat k : forallb is_sl (repeat SL k) = true.
+Proof. induction k; cbn; auto. Qed.
+
+Lemma dirname_single k c : nosl c -> dirname (repeat SL k ++ c) = repeat SL k.
+Proof.
+  intros Hc. unfold dirname. rewrite rev_app_distr, rev_repeat.
+  rewrite dw_nonsl_app by (intros x; apply nosl_in; exact Hc).
+  assert (D : drop_while (fun c0 => negb (is_sl c0)) (repeat SL k) = repeat SL k) by (destruct k; reflexivity).
+  rewrite D, forallb_sl_repeat. apply rev_repeat.
+Qed.
+
+Lemma dirname_snoc_comp B z c : nosl c -> is_sl z = false ->
+  dirname ((B ++ [z]) ++ SL :: c) = B ++ [z].
+Proof.
+  intros Hc Hz. unfold dirname. rewrite rev_app_distr. cbn [rev]. rewrite <- app_assoc. cbn [app].
+  rewrite dw_nonsl_app by (intros x; apply nosl_in; exact Hc).
+  cbn [drop_while]. change (is_sl SL) with true. cbn [negb].
+  rewrite rev_app_distr. cbn [rev app]. cbn [forallb]. change (is_sl SL) with true. rewrite Hz. cbn [andb].
+  cbn [drop_while]. change (is_sl SL) with true. cbn iota. rewrite Hz.
+  cbn [rev]. rewrite rev_involutive. reflexivity.
+Qed.
+
+(* components that are non-empty and slash-free (plain ones and "..") *)
+Definition goodc (c : str) : Prop := c <> [] /\ nosl c.
+Lemma good_last c : goodc c -> exists b z, c = b ++ [z] /\ is_sl z = false.
+Proof.
+  intros (Hne & Hn). destruct (exists_last Hne) as (b & z & E). exists b, z. split; [exact E|].
+  subst c. unfold nosl in Hn. rewrite forallb_app in Hn. apply andb_true_iff in Hn as [_ Hn]. cbn in Hn.
+  rewrite andb_true_r in Hn. apply negb_true_iff in Hn. exact Hn.
+Qed.
+Lemma join_ends_good l : Forall goodc l -> l <> [] -> exists pre z, join_sl l = pre ++ [z] /\ is_sl z = false.
+Proof.
+  intros HF Hne. destruct (exists_last Hne) as (l' & c & ->).
+  apply Forall_app in HF as [_ Hc]. inversion Hc; subst.
+  destruct (good_last c) as (b & z & -> & Hz); [assumption|].
+  destruct l' as [|a l''].
+  - exists b, z. split; [reflexivity|exact Hz].
+  - rewrite join_app by discriminate. cbn [join_sl].
+    exists (join_sl (a :: l'') ++ SL :: b), z. split; [|exact Hz].
+    rewrite <- app_assoc. reflexivity.
+Qed.
+
+Lemma nf_tail rooted c acc : nf rooted (c :: acc) -> nf rooted acc.
+Proof.
+  intros (n & pl & E & Hpl & Hr). destruct pl as [|p pl'].
+  - cbn in E. destruct n as [|n']; [discriminate|]. cbn in E. injection E as _ ->.
+    exists n', []. repeat split; auto. intros H. specialize (Hr H). discriminate.
+  - cbn in E. injection E as _ ->. inversion Hpl; subst. exists n, pl'. auto.
+Qed.
+
+Lemma dirname_nf k acc :
+  k <= 2 -> nf (Nat.ltb 0 k) acc ->
+  let q := or_dot (repeat SL k ++ join_sl (rev acc)) in
+  normpath (dirname q) = dirname q \/ dirname q = [].
+Proof.
+  intros Hk Hnf q. subst q. destruct acc as [|c acc'].
+  - destruct k as [|[|[|k]]]; try lia; [right|left|left]; reflexivity.
+  - pose proof (nf_comp_shape _ _ Hnf) as Hsh. inversion Hsh as [|? ? [Hcne Hc] Hsh']; subst.
+    pose proof (nf_tail _ _ _ Hnf) as Hnf'.
+    cbn [rev]. destruct acc' as [|c2 acc''] eqn:Eacc.
+    + cbn [rev app join_sl].
+      assert (Q : or_dot (repeat SL k ++ c) = repeat SL k ++ c).
+      { destruct c; [congruence|]. destruct k as [|[|[|k]]]; reflexivity. }
+      rewrite Q, dirname_single by assumption.
+      destruct k as [|[|[|k]]]; try lia; [right|left|left]; reflexivity.
+    + rewrite <- Eacc in *.
+      assert (Hne : rev acc' <> []).
+      { intros H. apply (f_equal (@rev str)) in H. rewrite rev_involutive in H. rewrite Eacc in H. discriminate. }
+      assert (HG : Forall goodc (rev acc')) by (apply Forall_rev; exact Hsh').
+      destruct (join_ends_good _ HG Hne) as (pre & z & Ej & Hz).
+      rewrite join_app by (assumption || discriminate). cbn [join_sl].
+      assert (Q : or_dot (repeat SL k ++ join_sl (rev acc') ++ SL :: c)
+                  = ((repeat SL k ++ pre) ++ [z]) ++ SL :: c).
+      { rewrite Ej. rewrite <- !app_assoc. cbn [app].
+        destruct (repeat SL k ++ pre ++ z :: SL :: c) eqn:X; [|reflexivity].
+        destruct k, pre; discriminate. }
+      rewrite Q, dirname_snoc_comp by assumption.
+      left.
+      assert (R : (repeat SL k ++ pre) ++ [z] = or_dot (repeat SL k ++ join_sl (rev acc'))).
+      { rewrite Ej, <- app_assoc. destruct (repeat SL k ++ pre ++ [z]) eqn:X; [|reflexivity].
+        destruct k, pre; discriminate. }
+      rewrite R. apply normpath_nf; assumption.
+Qed.
+
+Lemma dirname_normal p : normpath p = p -> normpath (dirname p) = dirname p \/ dirname p = [].
+Proof.
+  intros H. destruct p as [|c r]; [discriminate|].
+  set (p := c :: r) in *.
+  pose proof (dirname_nf (init_slashes p) (np_comps p) (init_slashes_le2 p) (np_comps_nf p)) as X.
+  cbv zeta in X.
+  change (or_dot (repeat SL (init_slashes p) ++ join_sl (rev (np_comps p)))) with (normpath p) in X.
+  rewrite H in X. exact X.
+Qed.
+
+Lemma ancestor_normal p a : normpath p = p -> ancestor p a -> normpath a = a \/ a = [].
+Proof.
+  intros Hp Ha. revert Hp. induction Ha as [p|p a' Ha' IH]; intros Hp.
+  - apply dirname_normal. exact Hp.
+  - destruct (IH Hp) as [H| ->]; [apply dirname_normal; exact H|right; reflexivity].
+Qed.
+
+(* ================================================================== missing directories (completeness) *)
+Lemma smem_iff x l : smem x l = true <-> In x l.
+Proof.
+  unfold smem. rewrite existsb_exists. split.
+  - intros (y & Hy & E). apply str_eqb_eq in E. subst. exact Hy.
+  - intros H. exists x. split; [exact H|apply str_eqb_refl].
+Qed.
+
+Lemma in_sdedupe x l : In x l -> In x (sdedupe l).
+Proof.
+  induction l as [|y l IH]; cbn; [tauto|]. intros [->|H].
+  - destruct (smem x l) eqn:S; [apply IH; apply smem_iff; exact S|left; reflexivity].
+  - destruct (smem y l); [auto|right; auto].
+Qed.
+
+Definition covered (d : dict) (m : list str) (t : str) : Prop := In t m \/ dhas (normpath t) d = true.
+
+Lemma ascend_incl fuel d t m : incl m (ascend fuel d t m).
+Proof.
+  revert t m; induction fuel as [|f IH]; intros t m; cbn; [apply incl_refl|].
+  destruct (smem t m || dhas (normpath t) d); [apply incl_refl|].
+  intros x Hx. apply IH. right. exact Hx.
+Qed.
+
+Lemma ascend_covers fuel d t m : covered d (ascend (S fuel) d t m) t.
+Proof.
+  cbn. destruct (smem t m || dhas (normpath t) d) eqn:E.
+  - apply orb_true_iff in E as [E|E]; [left; apply smem_iff; exact E|right; exact E].
+  - left. apply ascend_incl. left. reflexivity.
+Qed.
+
+(* every string the loop adds has its own parent covered, provided the fuel bounds the walk *)
+Lemma ascend_closed fuel d t m :
+  length t < fuel ->
+  forall y, In y (ascend fuel d t m) -> In y m \/ covered d (ascend fuel d t m) (dirname y).
+Proof.
+  revert t m; induction fuel as [|f IH]; intros t m Hf y Hy; [lia|].
+  cbn in Hy |- *. destruct (smem t m || dhas (normpath t) d) eqn:E; [left; exact Hy|].
+  destruct (dirname_length t) as [Hlt|Hfix].
+  - assert (Hf' : length (dirname t) < f) by lia.
+    destruct (IH (dirname t) (t :: m) Hf' y Hy) as [[<-|Hin]|Hc]; auto.
+    right. destruct f as [|f']; [lia|]. apply ascend_covers.
+  - rewrite Hfix in *.
+    assert (A : ascend f d t (t :: m) = t :: m).
+    { destruct f; cbn [ascend]; [reflexivity|]. assert (S : smem t (t :: m) = true) by (apply smem_iff; left; reflexivity).
+      rewrite S. reflexivity. }
+    unfold str in *. rewrite A in Hy |- *. destruct Hy as [<-|Hin]; [|left; exact Hin].
+    right. left. rewrite Hfix. left. reflexivity.
+Qed.
+
+Definition walk (d : dict) (l m : list str) : list str :=
+  fold_left (fun m x => ascend (S (S (length x))) d (dirname x) m) l m.
+
+Opaque ascend.
+Lemma walk_incl d l m : incl m (walk d l m).
+Proof.
+  revert m; induction l as [|x l IH]; intros m; cbn; [apply incl_refl|].
+  eapply incl_tran; [apply ascend_incl|apply IH].
+Qed.
+
+Lemma covered_mono d m m' t : incl m m' -> covered d m t -> covered d m' t.
+Proof. intros Hi [H|H]; [left; apply Hi; exact H|right; exact H]. Qed.
+
+Lemma walk_closed d l m :
+  (forall y, In y m -> In y l \/ covered d m (dirname y)) ->
+  forall y, In y (walk d l m) -> covered d (walk d l m) (dirname y).
+Proof.
+  revert m; induction l as [|x l IH]; intros m Hm y Hy; cbn in *.
+  - destruct (Hm y Hy) as [[]|H]; exact H.
+  - apply IH; [|exact Hy]. clear y Hy. intros y Hy.
+    set (m' := ascend (S (S (length x))) d (dirname x) m) in *.
+    assert (Hf : length (dirname x) < S (S (length x))) by (pose proof (dirname_le x); lia).
+    destruct (ascend_closed _ d (dirname x) m Hf y Hy) as [Hin|Hc]; [|right; exact Hc].
+    destruct (Hm y Hin) as [[<-|Hl]|Hc].
+    + right. apply ascend_covers.
+    + left. exact Hl.
+    + right. eapply covered_mono; [apply ascend_incl|exact Hc].
+Qed.
+
+Lemma missing_core d : wf_dict d ->
+  forall e a, In e d -> ancestor (eloc e) a ->
+  covered d (walk d (sdedupe (filter (fun x => negb (dhas (normpath x) d)) (map (fun e => dirname (eloc e)) d)))
+                    (sdedupe (filter (fun x => negb (dhas (normpath x) d)) (map (fun e => dirname (eloc e)) d)))) a.
+Proof.
+  intros W. set (m0 := sdedupe _). set (M := walk d m0 m0).
+  assert (Base : forall e, In e d -> covered d M (dirname (eloc e))).
+  { intros e Hin. destruct (dhas (normpath (dirname (eloc e))) d) eqn:H; [right; exact H|].
+    left. apply walk_incl. apply in_sdedupe. apply filter_In. split.
+    - apply in_map_iff. exists e. auto.
+    - rewrite H. reflexivity. }
+  assert (Closed : forall y, In y M -> covered d M (dirname y)).
+  { apply walk_closed. intros y Hy. left. exact Hy. }
+  intros e a Hin Ha.
+  assert (He : normpath (eloc e) = eloc e).
+  { destruct W as [_ HF]. rewrite Forall_forall in HF. exact (HF _ Hin). }
+  remember (eloc e) as p eqn:Ep. revert e Hin Ep.
+  induction Ha as [p|p a' Ha' IH]; intros e Hin Ep; subst p.
+  - apply Base. exact Hin.
+  - destruct (IH He e Hin eq_refl) as [HM|Hd].
+    + apply Closed. exact HM.
+    + destruct (ancestor_normal _ _ He Ha') as [Hn| ->].
+      * rewrite Hn in Hd. apply dhas_iff in Hd as (e' & Hin' & E'). rewrite <- E'. apply Base. exact Hin'.
+      * right. exact Hd.
+Qed.
+
+Transparent ascend.
+
+Theorem missing_dirs_complete_proof : forall s tag, wf s -> missing_complete s (add_missing_directories s tag).
+Proof.
+  intros s tag W e a Hin Ha Hroot.
+  pose proof (missing_core (ents s) W e a Hin Ha) as C.
+  unfold dom, abs, add_missing_directories; cbn. rewrite dget_dupdate.
+  destruct (dget (normpath a) (rev _)) eqn:G; [discriminate|].
+  destruct C as [HM|Hd].
+  - exfalso. apply dget_none in G. apply G. rewrite map_rev. apply in_rev. rewrite rev_involutive.
+    rewrite map_map. cbn. apply in_map_iff. exists a. split; [reflexivity|].
+    unfold missing_dirs. apply filter_In. split; [exact HM|].
+    apply negb_true_iff. apply str_eqb_false. exact Hroot.
+  - rewrite dhas_dget in Hd. destruct (dget (normpath a) (ents s)); [discriminate|discriminate].
+Qed.
+
+Theorem missing_dirs_exact_proof : missing_dirs_exact_statement.
+Proof.
+  intros s tag W. split; [apply missing_dirs_sound_partial_proof|apply missing_dirs_complete_proof; exact W].
+Qed.
+
+(* ================================================================== symmetric difference with a list *)
+Lemma entry_in_list_spec d es x :
+  NoDup (map eloc d) -> In x d ->
+  existsb (fun e => match dget (eloc e) d with Some y => negb (N.eqb (ekind y) (ekind e)) | None => false end) es = false ->
+  entry_in_arg x (AList (map IE es)) = dhas (eloc x) es.
+Proof.
+  intros ND Hin Hc. cbn [entry_in_arg].
+  induction es as [|e es IH]; cbn; [reflexivity|].
+  cbn in Hc. apply orb_false_iff in Hc as [Hc1 Hc2]. rewrite (IH Hc2).
+  destruct (str_eqb (eloc e) (eloc x)) eqn:E; [|rewrite andb_false_r; reflexivity].
+  apply str_eqb_eq in E. rewrite E in Hc1. rewrite (dget_nodup_in _ _ ND Hin) in Hc1.
+  apply negb_false_iff in Hc1. rewrite N.eqb_sym, Hc1. reflexivity.
+Qed.
+
+Theorem symdiff_list_partial_proof : forall s es,
+  wf s -> NoDup (map eloc es) -> symdiff_list_class s es = false ->
+  exists r, symmetric_difference s (AList (map IE es)) = Ok r /\ mut r = mut s
+            /\ same_map (abs r) (M_symdiff (abs s) (ents_map es))
+            /\ symmetric_difference_update s (AList (map IE es)) = (if mut s then Ok r else Er TypeError).
+Proof.
+  intros s es [ND _] NDe Hc.
+  assert (F : filter (fun x => entry_in_arg x (AList (map IE es))) (ents s)
+              = filter (fun x => dhas (eloc x) es) (ents s)).
+  { apply filter_ext_in. intros x Hx. apply (entry_in_list_spec (ents s)); assumption. }
+  unfold symmetric_difference_update, symmetric_difference, symdiff_core. cbn [arg_items].
+  rewrite F, add_absent_entries.
+  eexists; split; [reflexivity|]. split; [reflexivity|]. split; [|destruct (mut s); reflexivity].
+  intros p. unfold abs at 1; cbn. rewrite dget_fold_ddel_ents.
+  rewrite (existsb_key_filter p (fun k => dhas k es)). rewrite dget_addnew.
+  unfold M_symdiff, abs. rewrite (ents_map_wf es NDe p). rewrite !dhas_dget.
+  destruct (dget p (ents s)), (dget p es); reflexivity.
+Qed.
